@@ -109,7 +109,89 @@ def scan_writers(prog, table):
     return dict(name='scan:writers', checked=max(checked, 1), violations=viol)
 
 
+def scan_structure(prog, reg, cid, props_table):
+    """Structural obligations for the functions a property depends on:
+    (a) no class of the package overrides a contracted method without carrying a contract itself,
+    (b) no module-level statement re-binds attributes of package classes (monkey patching at import),
+    (c) contracted functions carry only the known decorators."""
+    checked, viol = 0, []
+    keys = {k.split('#')[0] for k in props_table[cid]['functions']}
+    contracted = {k.split('#')[0].split('@')[0] for k in reg.contracts}
+    for key in sorted(keys):
+        mod, _, qual = key.partition('.')
+        if '.' not in qual:
+            continue
+        cname, mname = qual.split('.')[0], qual.split('.')[1].split('@')[0]
+        checked += 1
+        if mname == '__init__':
+            continue          # constructors are re-defined by design; each subclass constructor has its own contract
+        for d in prog.classes:
+            if d != cname and prog.is_subclass(d, cname) and mname in prog.classes[d].methods:
+                okey = f'{prog.classes[d].module}.{d}.{mname}'
+                if okey not in contracted:
+                    viol.append(f'{okey} overrides the contracted {key} without a contract of its own')
+        # a redefinition between cname and the class where the contract sits is covered by the MRO lookup
+    for m, src in prog.sources.items():
+        tree = ast.parse(src)
+        for node in tree.body:
+            checked += 1
+            targets = []
+            if isinstance(node, ast.Assign):
+                targets = node.targets
+            elif isinstance(node, (ast.AugAssign, ast.AnnAssign)):
+                targets = [node.target]
+            for t in targets:
+                if isinstance(t, (ast.Attribute, ast.Subscript)):
+                    viol.append(f'{m}.py line {node.lineno}: module-level statement re-binds `{ast.unparse(t)}`')
+            if isinstance(node, ast.Expr) and isinstance(node.value, ast.Call) and isinstance(node.value.func, ast.Name) \
+                    and node.value.func.id in ('setattr', 'delattr'):
+                viol.append(f'{m}.py line {node.lineno}: module-level {node.value.func.id}(...)')
+    known = {'property', 'staticmethod', 'classmethod', 'deprecated'}
+    for key in sorted(keys):
+        try:
+            fi = prog.func(key)
+        except KeyError:
+            continue
+        checked += 1
+        for d in fi.node.decorator_list:
+            name = d.id if isinstance(d, ast.Name) else (d.attr if isinstance(d, ast.Attribute) else
+                                                         (d.func.id if isinstance(d, ast.Call) and isinstance(d.func, ast.Name) else '?'))
+            if name not in known and name != 'setter':
+                viol.append(f'{key}: decorator @{name} changes what a call of this function executes')
+    return dict(name='scan:structure', checked=checked, violations=viol)
+
+
+def scan_defaults(prog, table, cid):
+    """Property-relevant default arguments (e.g. collectors default to priority -1 < 0)."""
+    checked, viol = 0, []
+    for (key, param), (expected, props) in table.items():
+        if cid not in props:
+            continue
+        checked += 1
+        try:
+            fi = prog.func(key)
+        except KeyError as ex:
+            viol.append(str(ex))
+            continue
+        a = fi.node.args
+        names = [x.arg for x in a.posonlyargs + a.args]
+        defaults = dict(zip(names[len(names) - len(a.defaults):], a.defaults))
+        for p_, d_ in zip(a.kwonlyargs, a.kw_defaults):
+            if d_ is not None:
+                defaults[p_.arg] = d_
+        if param not in defaults:
+            viol.append(f'{key}: parameter {param} has no default (expected {expected})')
+        elif ast.unparse(defaults[param]) != expected:
+            viol.append(f'{key}: default of {param} is {ast.unparse(defaults[param])}, the property relies on {expected}')
+    return dict(name='scan:defaults', checked=max(checked, 1), violations=viol)
+
+
 def run(spec, prog, reg, cid):
+    if spec['kind'] == 'structure':
+        from contracts.props import PROPS
+        return scan_structure(prog, reg, cid, PROPS)
+    if spec['kind'] == 'defaults':
+        return scan_defaults(prog, spec['table'], cid)
     if spec['kind'] == 'reads':
         return scan_reads(prog)
     if spec['kind'] == 'writers':
